@@ -1047,7 +1047,7 @@ uint64_t RunPlan(const EnvPlan &p, const std::string &repo,
       const char *cls = e == 0 ? "history_dependence" : "environment_dependence";
       // A decode with bytes appended is compared with the decode of the bare
       // stream: a difference there is a dependence on trailing bytes.
-      if (op.trail > 0 && e == 0) cls = "trailing_bytes_dependence";
+      if (op.trail > 0) cls = "trailing_bytes_dependence";
       if (r.ok != x.ok || r.code != x.code) {
         add(cls, "status",
             "status " + std::to_string(r.ok) + "/" + std::to_string(r.code) +
